@@ -405,6 +405,8 @@ fn point_ops<T: Elem>(c: &mut Ctx, rng: &mut Rng) {
 }
 
 pub fn run(c: &mut Ctx) {
+    // this property rebuilds every state many times: very large sparse states are capped at 2^24 buckets
+    crate::states::set_huge_max_lg(24);
     c.run_scenarios(|c, idx, rng| match crate::util::mix(idx) % 5 {
         0 => pair_case::<T24>(c, rng),
         1 => pair_case::<P8>(c, rng),
